@@ -83,7 +83,26 @@ def _validator_classes(fault):
         t = Tuple(Even(), Neg(), Even())
         i = Int(7)
         s = Str("s")
+        # validated traits whose default is computed from the state at the moment of the first read
+        de = Even()
+        dn = Neg()
+
+        def _de_default(self):
+            DCALLS.append("de")
+            return 2 * self.i
+
+        def _dn_default(self):
+            DCALLS.append("dn")
+            return -abs(self.i) - 1
     return A
+
+
+DCALLS = []   # calls of the dynamic-default methods of the validator classes
+
+
+def _plain_dict(obj):
+    """the stored trait values (listener bookkeeping under dunder keys holds per-object wrapper objects)"""
+    return {k: v for k, v in obj.__dict__.items() if not k.startswith("__")}
 
 
 def run_validator(c):
@@ -94,24 +113,34 @@ def run_validator(c):
     def play(obj, steps, fault_at):
         res = []
         log = []
-        obj.on_trait_change(lambda o, n, old, new: log.append((n, old, new)), "e,n,en,t,i,s")
+        obj.on_trait_change(lambda o, n, old, new: log.append((n, old, new)), "e,n,en,t,i,s,de,dn")
         for j, (name, val, via) in enumerate(steps):
             val = tuple(val) if isinstance(val, list) else val
+            snap = dict((a, getattr(obj, a)) for a in ("e", "n", "en", "t", "i", "s"))
+            # the dynamic-default traits are never read by the harness itself: whether `de`/`dn` are
+            # materialised is part of the state ("caches are as before"), seen through __dict__
+            raw = _plain_dict(obj)
+            ncalls = len(DCALLS)
             if j == fault_at:
                 fault.arm(c["k"], c["exc"])
-            snap = dict((a, getattr(obj, a)) for a in ("e", "n", "en", "t", "i", "s"))
             del log[:]
             try:
-                if via == "set":
+                if via == "get":
+                    r = "ok %r" % (getattr(obj, name),)
+                elif via == "set":
                     setattr(obj, name, val)
+                    r = "ok"
                 else:
                     obj.trait_set(**{name: val})
-                r = "ok"
+                    r = "ok"
             except Exception as ex:
                 r = "err " + S.exc_name(ex)
             fired = fault.fired if j == fault_at else False
             fault.disarm()
             after = dict((a, getattr(obj, a)) for a in ("e", "n", "en", "t", "i", "s"))
+            if r.startswith("err") and via != "get":
+                snap["__dict__"], snap["default-calls"] = raw, 0
+                after["__dict__"], after["default-calls"] = _plain_dict(obj), len(DCALLS) - ncalls
             res.append((r, after, list(log), fired, snap))
         return res
     steps = c["steps"]
@@ -574,7 +603,8 @@ def run(c):
 def generate(rng, n, excs):
     import json
     vals = {"e": [2, 4, 3, "x", None], "n": [-1, -5, 2, "x"], "en": [2, -3, 3, "x", None],
-            "t": [[2, -1, 4], [2, 2, 4], [3, -1, 4], [2, -1], "x"], "i": [1, 2, "x"], "s": ["a", 3]}
+            "t": [[2, -1, 4], [2, 2, 4], [3, -1, 4], [2, -1], "x"], "i": [1, 2, "x"], "s": ["a", 3],
+            "de": [2, 6, 3, "x"], "dn": [-2, -7, 4, "x"]}
     for _ in range(n):
         r = rng.random()
         exc = rng.choice(excs)
@@ -582,12 +612,15 @@ def generate(rng, n, excs):
             steps = []
             for _ in range(rng.randint(1, 6)):
                 name = rng.choice(list(vals))
-                steps.append([name, rng.choice(vals[name]), rng.choice(["set", "set", "trait_set"])])
-            cand = [j for j, s in enumerate(steps) if s[0] in ("e", "n", "en", "t")]
+                if name in ("de", "dn") and rng.random() < 0.4:
+                    steps.append([name, None, "get"])      # first read: materialises the dynamic default
+                else:
+                    steps.append([name, rng.choice(vals[name]), rng.choice(["set", "set", "trait_set"])])
+            cand = [j for j, s in enumerate(steps) if s[0] in ("e", "n", "en", "t", "de", "dn") and s[2] != "get"]
             if not cand:
                 continue
             at = rng.choice(cand)
-            kmax = {"e": 0, "n": 0, "en": 1, "t": 2}[steps[at][0]]
+            kmax = {"e": 0, "n": 0, "en": 1, "t": 2, "de": 0, "dn": 0}[steps[at][0]]
             if steps[at][0] == "en" and exc == "TraitError":
                 # a TraitError inside one alternative of a compound *is* a rejection by that
                 # alternative (the next one is tried): not a failing callback in C19's sense
